@@ -828,6 +828,11 @@ func (c *EvalCtx) call(e ECall) EV {
 			c.fail("lastResult(%s,%d): no such tracked call", name, k)
 		}
 		return EV{T: fr.R.Sc.Declare("never."+sanitize(key), fr.R.TM.SortOf(ty)), Ty: ty}
+	case "ghostOf":
+		// ghostOf("name", x): specification-only boolean attribute of the object x (e.g. "armed" for a *time.Timer)
+		x := c.eval(e.Args[1])
+		gc := fr.R.Heap.Get(fr.st, ghostComp(e.Args[0]), ArraySort(SInt, SBool))
+		return EV{T: Select(gc, c.term(x), SBool), Ty: boolT}
 	case "closed":
 		x := c.eval(e.Args[0])
 		cc := fr.R.Heap.Get(fr.st, chanClosedComp, ArraySort(SInt, SBool))
@@ -917,6 +922,10 @@ func identName(e Expr) string {
 		return e.Val
 	}
 	return ExprString(e)
+}
+
+func ghostComp(e Expr) string {
+	return "Ghost." + strings.Trim(typeExprString(e), "\"")
 }
 
 func typeExprString(e Expr) string {
